@@ -152,10 +152,13 @@ class InitMethod(MethodDescriptor):
     def build_method(self) -> Callable:
         spec_class_key = self.spec_cls.__spec_class__.key
         key_default = inspect.Parameter.empty
+        key_is_argument = False
         if spec_class_key:
             spec_class_key_spec = (
                 self.spec_cls.__spec_class__.attrs.get(spec_class_key) or Attr()
             )
+            # (a key declared `init=False` is not initialised by the constructor)
+            key_is_argument = spec_class_key_spec.init
             # If the key has a default, don't require it to be set during
             # construction.
             key_default = (
@@ -170,7 +173,7 @@ class InitMethod(MethodDescriptor):
                 desc=f"The value to use for the `{spec_class_key}` key attribute.",
                 default=key_default,
                 annotation=self.spec_cls.__spec_class__.annotations.get(spec_class_key),
-                only_if=spec_class_key,
+                only_if=key_is_argument,
             )
             .with_spec_attrs_for(
                 self.spec_cls,
